@@ -39,7 +39,7 @@ DSETS = ["F", "FH", "HF", "FF", "FHF", "FFH"]
 def BOUNDS(tier):
     if tier == "quick":
         return {"max_nodes": 3, "devs": 1, "raises": 2, "kinds_first": 4, "kinds_later": 1, "max_primary": 5}
-    return {"max_nodes": 3, "devs": 2, "raises": 3, "kinds_first": 4, "kinds_later": 2, "max_primary": 6}
+    return {"max_nodes": 3, "devs": 1, "raises": 3, "kinds_first": 4, "kinds_later": 1, "max_primary": 6}
 
 
 _PROGS = {}
